@@ -465,11 +465,12 @@ pub fn cases_for(plan: &Plan, seed: u64) -> (Vec<(String, History)>, usize) {
         }
         // wide: many clients on one server (per-client caches, tables keyed by client, eviction)
         if i % 16 == 9 {
-            let two = plan.compare == Compare::TwoRun;
+            // (plans whose monitors dump every client around every operation get narrower ones)
+            let two = plan.compare == Compare::TwoRun || plan.mon.frame || plan.mon.cas || plan.mon.snapwin;
             prof.min_clients = if two { 10 } else { 20 };
             prof.max_clients = if two { 14 } else { 40 };
-            prof.min_ops = if two { 120 } else { 200 };
-            prof.max_ops = if two { 160 } else { 320 };
+            prof.min_ops = if two { 100 } else { 200 };
+            prof.max_ops = if two { 140 } else { 320 };
             prof.valid_add_pct = prof.valid_add_pct.max(70);
         }
         cases.push(("random".into(), generate(hseed, &prof)));
@@ -587,7 +588,7 @@ pub fn plan_for(id: &str, tier: &str) -> Option<Plan> {
         kinds: all.clone(),
         profile: GenProfile::default(),
         compare: Compare::None,
-        n_random: n(240, 6000),
+        n_random: n(180, 6000),
         scope: None,
         config: Config { snapshot_days: 14, snapshot_versions: 4 },
         walk_every: 1,
@@ -615,7 +616,7 @@ pub fn plan_for(id: &str, tier: &str) -> Option<Plan> {
             p.allowlisted_variant = true;
             p.mon.cas = true;
             p.scope = Some(Scope { kind: ScopeKind::Parent, max_len: n(5, 8) });
-            p.n_random = n(200, 5000);
+            p.n_random = n(150, 5000);
             p.profile.valid_add_pct = 45;
             p.profile.w_kind = [60, 8, 12, 5, 15];
             p.required = vec!["AddVersion|absent", "arg=latest|accepted", "arg=older|conflict", "arg=base|conflict", "arg=foreign|conflict", "arg=unknown|conflict", "arg=nil|conflict", "base=id"];
@@ -660,7 +661,7 @@ pub fn plan_for(id: &str, tier: &str) -> Option<Plan> {
             p.allowlisted_variant = true;
             p.mon.snapwin = true;
             p.scope = Some(Scope { kind: ScopeKind::Snapshot, max_len: n(6, 8) });
-            p.n_random = n(200, 5000);
+            p.n_random = n(150, 5000);
             p.profile.w_kind = [45, 5, 40, 5, 5];
             p.profile.valid_add_pct = 85;
             p.required = vec!["snapwin:accept:back5", "snapwin:accept:back1", "snapwin:decline:arg=back6", "snapwin:decline:arg=nil", "snapwin:decline:arg=foreign", "snapwin:accept:back2:cur=back3", "snapwin:decline:arg=back3:back3"];
@@ -671,7 +672,7 @@ pub fn plan_for(id: &str, tier: &str) -> Option<Plan> {
             p.allowlisted_variant = true;
             p.mon.snapget = true;
             p.profile.pause_per_10k = 4;
-            p.n_random = n(300, 6000);
+            p.n_random = n(220, 6000);
             p.profile.w_kind = [45, 5, 35, 10, 5];
             p.profile.valid_add_pct = 80;
             p.required = vec!["getsnapshot:new", "getsnapshot:kept", "getsnapshot:none"];
@@ -692,7 +693,7 @@ pub fn plan_for(id: &str, tier: &str) -> Option<Plan> {
                 Kind::MEM_HTTP,
                 Kind { backend: Backend::Sqlite, entry: Entry::Http, reopen_pct: 40, socket: false, peers: false },
             ];
-            p.n_random = n(350, 6000);
+            p.n_random = n(260, 6000);
             p.required = vec!["AddSnapshot|", "GetSnapshot|", "|conflict"];
             p.rule = "identical symbolic histories in lock step on in-memory, SQLite and SQLite reopened at 10/50/100% of the gaps (new storage object, schema setup re-run), library and HTTP entries compared within the same entry; responses abstracted by id role and the client record (latest, snapshot version, versions-since) compared after every operation.";
         }
@@ -711,7 +712,7 @@ pub fn plan_for(id: &str, tier: &str) -> Option<Plan> {
             p.property = "C18";
             p.allowlisted_variant = true;
             p.mon.frame = true;
-            p.n_random = n(200, 5000);
+            p.n_random = n(150, 5000);
             p.profile.w_kind = [30, 25, 25, 12, 8];
             p.profile.valid_add_pct = 40;
             p.required = vec!["frame:GetChildVersion:found", "frame:GetChildVersion:gone", "frame:GetChildVersion:not-found", "frame:GetSnapshot:snapshot", "frame:AddVersion:conflict", "frame:AddSnapshot:declined", "frame:refused:add-version with empty body from a never-seen client", "frame:refused:add-snapshot with empty body", "frame:refused:request to an unknown route"];
